@@ -467,10 +467,13 @@ class Discovery (EventMixin):
     return EventHalt # Probably nobody else needs this event
 
   def _delete_links (self, links):
-    for link in links:
-      self.raiseEventNoErrors(LinkEvent, False, link)
+    # Update the adjacency before telling anyone, so that listeners which
+    # look at it from their LinkEvent handler (e.g., spanning_tree, or
+    # anything calling is_edge_port()) see the topology without the links.
     for link in links:
       self.adjacency.pop(link, None)
+    for link in links:
+      self.raiseEventNoErrors(LinkEvent, False, link)
 
   def is_edge_port (self, dpid, port):
     """
